@@ -487,7 +487,7 @@ def _slice_a(h, port_name, site):
     return t
 
 
-def _slice_b(h, port_name, site1, site2, core):
+def _slice_b(h, port_name, site1, site2, core, site3):
     """two nodes on two sites, a GPU, a facility, and a port mirror of a port that is NOT part of this slice"""
     t = h.call(ExperimentTopology)
     n1 = h.call(h.getattr(t, 'add_node'), name='b1', site=site1, capacities=h.call(Capacities, core=core, ram=8, disk=10))
@@ -496,7 +496,8 @@ def _slice_b(h, port_name, site1, site2, core):
     c = h.call(h.getattr(n2, 'add_component'), name='nic', model_type=_topo.CMT('SmartNIC_ConnectX_6'))
     i = _topo.iface(h, c, 'nic-p1')
     h.call(h.getattr(t, 'add_port_mirror_service'), name='mirror', from_interface_name=port_name, to_interface=i)
-    h.call(h.getattr(t, 'add_facility'), name='fac', site=site1, capacities=h.call(Capacities, bw=10))
+    # the facility sits at a site where the slice may have no node at all
+    h.call(h.getattr(t, 'add_facility'), name='fac', site=site3, capacities=h.call(Capacities, bw=10))
     # validation records the site of single-site services (the mirror service sits where its receiving port is)
     h.call(h.getattr(t, 'validate'))
     return t
@@ -524,14 +525,14 @@ class TopologyCollection(Contract):
     cost = 60
 
     def inputs(self, g):
-        return [g.atom('port'), g.atom('siteA'), g.atom('site1'), g.atom('site2'), g.int('core', lo=1)], {}
+        return [g.atom('port'), g.atom('siteA'), g.atom('site1'), g.atom('site2'), g.int('core', lo=1), g.atom('site3')], {}
 
-    def body(self, h, port, siteA, site1, site2, core):
+    def body(self, h, port, siteA, site1, site2, core, site3):
         _topo.fresh_world(h)
-        alone = _attrs(h, _slice_b(h, port, site1, site2, core))
+        alone = _attrs(h, _slice_b(h, port, site1, site2, core, site3))
         _topo.fresh_world(h)
         ta = _slice_a(h, port, siteA)
-        tb = _slice_b(h, port, site1, site2, core)
+        tb = _slice_b(h, port, site1, site2, core, site3)
         first = _attrs(h, ta)
         after = _attrs(h, tb)
         return (alone, after, first)
@@ -540,11 +541,11 @@ class TopologyCollection(Contract):
     def _tally(pre, post):
         if not returned(post):
             return False
-        port, siteA, site1, site2, core = pre.args
+        port, siteA, site1, site2, core, site3 = pre.args
         alone = post.result[0]
         g = lambda k: alone.get(k, [])
         sites = g(RA.RESOURCE_SITE)
-        return And(And(*[member(s, sites) for s in (site1, site2)]), And(*[Or(eq(s, site1), eq(s, site2)) for s in sites]),
+        return And(And(*[member(s, sites) for s in (site1, site2, site3)]), And(*[Or(eq(s, site1), eq(s, site2), eq(s, site3)) for s in sites]),
                    lists_eq(g(RA.RESOURCE_CPU), [core, 0]) if len(g(RA.RESOURCE_CPU)) == 2 else lists_eq(g(RA.RESOURCE_CPU), [core]),
                    lists_eq(sorted(map(str, g(RA.RESOURCE_COMPONENT))), ['GPU', 'SmartNIC']),
                    lists_eq(g(RA.RESOURCE_FACILITY_PORT), ['fac']),
